@@ -1,6 +1,7 @@
 package props
 
 import (
+	"os"
 	"bytes"
 	"fmt"
 	"testing"
@@ -31,7 +32,7 @@ type c09Sample struct {
 func init() {
 	register(&Prop{
 		ID:   "C09",
-		Rule: "each run serves a simulated UDP socket with the real Server.servePacket/packetConn and draws 1..6 client addresses sending bursts of position-coded datagrams (sizes 1..9000 and above, bursts beyond the channel capacities 5/10/10, gaps around the 30s idle timeout), network drop/duplicate/reorder/delay before arrival, a handler (recording handler that replies and stops after k datagrams, or the real echo), optionally a matcher with a short matching timeout, temporary read errors and socket Close at an arbitrary instant. Oracle over arrival order at the socket: per-association bytes are a contiguous in-order run of that client's arrivals, disjoint and increasing across its associations, never another client's; replies go to the writer's client; datagrams arriving after an association ended are served by a fresh one; the process survives. Non-trivial: >=2 clients interleaved or >=2 associations for one client; distinct: event-log hashes.",
+		Rule: "each run serves a simulated UDP socket with the real Server.servePacket/packetConn and draws 1..14 client addresses sending bursts of position-coded datagrams (sizes 1..9000 and above, bursts beyond the channel capacities 5/10/10, gaps around the 30s idle timeout), network drop/duplicate/reorder/delay before arrival, a handler (recording handler that replies and stops after k datagrams and may stay away from its queue for up to 45s or leave without reading, or the real echo), optionally a matcher with a short matching timeout, temporary read errors and socket Close at an arbitrary instant. Oracle over arrival order at the socket: per-association bytes are a contiguous in-order run of that client's arrivals, disjoint and increasing across its associations, never another client's; replies go to the writer's client; datagrams arriving after an association ended are served by a fresh one; the process survives; bounded liveness: the loop and every association wind down within the idle timeout after the last datagram (a run that exhausts the 30-minute simulated-time cap with blocked server goroutines is a violation). Non-trivial: >=2 clients interleaved or >=2 associations for one client; distinct: event-log hashes.",
 		Run:  runC09,
 		MaxTime: 30 * time.Minute,
 		MaxSteps: 40000,
@@ -46,6 +47,9 @@ func runC09(t *testing.T, e *worlds.Env, tier string) (bool, any) {
 	keys := map[string]uint64{}
 	var sockCloseStep = -1
 	hasMatcher := false
+	var slowFor time.Duration
+	slowAll, slowDgrams := false, 0
+	var woundDown func() bool
 	e.Run(t, func() func() bool {
 		yieldKnob(e)
 		e.S.YieldOn = nil // all yield sites: the close/arrival windows are the point of this world
@@ -54,6 +58,11 @@ func runC09(t *testing.T, e *worlds.Env, tier string) (bool, any) {
 		}
 		tp := e.T
 		nclients := 1 + tp.Weighted("nclients", 3, 3, 2, 1, 1, 1)
+		many := tp.Prob(1, 8, "many-clients")
+		if many {
+			// more associations than the close-notification channel holds
+			nclients = 7 + tp.Choose(8, "nclients-many")
+		}
 		faults := simnet.UDPFaults{}
 		if tp.Prob(1, 2, "udp-faults") {
 			faults.DropPerm = tp.Pick("drop", 0, 50, 300)
@@ -71,6 +80,23 @@ func runC09(t *testing.T, e *worlds.Env, tier string) (bool, any) {
 			u := &worlds.UDPRec{E: e, Reply: tp.Prob(2, 3, "reply"), MaxReads: tp.Pick("max-reads", 0, 1, 2, 5, 12), BufSize: tp.Pick("bufsize", 9216, 9216, 100, 2048), Log: &assocs}
 			h = u
 			sample.Handler = fmt.Sprintf("udprec(max=%d,reply=%v,buf=%d)", u.MaxReads, u.Reply, u.BufSize)
+			slowNum := 1
+			if many {
+				slowNum = 2
+			}
+			if tp.Prob(slowNum, 4, "slow-handler") {
+				// one client's handler (or every handler) is busy elsewhere and does not read for a
+				// while: its queue fills, the server loop waits on it, notifications pile up
+				u.SlowFor = time.Duration(tp.Pick("slow-ms", 200, 5000, 31000, 45000)) * time.Millisecond
+				if !tp.Prob(1, 4, "slow-all") {
+					u.SlowClient = worlds.UDPClientAddr(1).String()
+				} else {
+					slowAll = true
+				}
+				u.SlowNoRead = tp.Prob(1, 3, "slow-noread")
+				slowFor = u.SlowFor
+				sample.Handler += fmt.Sprintf(" slow(%q,%v,noread=%v)", u.SlowClient, u.SlowFor, u.SlowNoRead)
+			}
 		}
 		var sets []layer4.MatcherSet
 		timeout := time.Duration(tp.Pick("timeout-ms", 3000, 100, 700)) * time.Millisecond
@@ -90,6 +116,9 @@ func runC09(t *testing.T, e *worlds.Env, tier string) (bool, any) {
 			keys[addr.String()] = key
 			plan := &worlds.UDPClientPlan{ID: i, Addr: addr, Faults: faults}
 			nd := 1 + tp.LogRange(0, 40, "ndgrams")
+			if many && nd > 8 {
+				nd = 8
+			}
 			off := 0
 			for j := 0; j < nd; j++ {
 				var sz int
@@ -121,7 +150,19 @@ func runC09(t *testing.T, e *worlds.Env, tier string) (bool, any) {
 				plan.Sends = append(plan.Sends, worlds.UDPSend{Data: d, Delay: delay})
 			}
 			sample.Datagrams = append(sample.Datagrams, nd)
+			if slowAll || i == 1 {
+				slowDgrams += nd // each may be served by an association of its own that stays away first
+			}
 			uw.StartClient(plan)
+		}
+		woundDown = func() bool {
+			lk()
+			last, all := uw.LastSendAt, true
+			for _, c := range uw.Clients {
+				all = all && c.Done
+			}
+			ulk()
+			return all && e.S.Elapsed() > last+40*time.Second+slowFor*time.Duration(slowDgrams+1)
 		}
 		if tp.Prob(1, 5, "read-timeouts") {
 			uw.Sock.InjectReadTimeouts(1 + tp.Choose(3, "rt-n"))
@@ -133,12 +174,42 @@ func runC09(t *testing.T, e *worlds.Env, tier string) (bool, any) {
 				time.Sleep(at)
 				sockCloseStep = e.S.StepNow()
 				_ = uw.Sock.Close()
+				// keep simulated time moving until the rest has wound down (see the end condition)
+				for i := 0; i < 400 && !woundDown(); i++ {
+					time.Sleep(5 * time.Second)
+				}
 			})
 		}
-		return uw.Done
+		return func() bool {
+			if uw.Done() {
+				return true
+			}
+			// After the socket is closed the server loop is gone and nothing drains the
+			// close notifications any more: with more than a handful of associations alive
+			// their handlers stay blocked in Close for good (shutdown behaviour outside this
+			// property, see DESIGN.md). The run ends once everything else has wound down.
+			if sockCloseStep < 0 {
+				return false
+			}
+			return woundDown()
+		}
 	}, func() {
 		sample.SimTime = e.S.SimElapsed.String()
 		if e.S.Capped {
+			// bounded liveness: every association ends at the latest one idle timeout after its
+			// client's last datagram (plus the time a slow handler stays away), so a run that
+			// used up the simulated-time cap long after that is a server that stopped serving
+			if os.Getenv("VERIF_DEBUG_CAP") != "" {
+				e.S.Fail("C09/capdebug", fmt.Sprint(e.S.Seed), "capped by %s: %s sockclose=%q live=%v wound=%v last=%v step=%d", e.S.CappedBy, sample.Handler, sample.SockClose, e.S.Live(), woundDown(), uw.LastSendAt, sockCloseStep)
+			}
+			if e.S.CappedBy == "time" && sockCloseStep < 0 {
+				lk()
+				last := uw.LastSendAt
+				ulk()
+				if slack := e.S.SimElapsed - last - slowFor*time.Duration(slowDgrams+1); slack > 5*time.Minute {
+					e.S.Fail("C09/stuck", "udp", "all clients had sent their last datagram by %v, yet %v later these goroutines are still blocked: %v", last, e.S.SimElapsed-last, liveWith(e, "usrv"))
+				}
+			}
 			return
 		}
 		arr := uw.Sock.ArrivalsSnapshot()
